@@ -311,7 +311,7 @@ func verifBlock(p string) *networking.HTTPMatchRequest {
 	case 5:
 		b.Authority = verifStringMatch(p+".authority", 3)
 	}
-	switch vp.Choice(p+".source", 5) {
+	switch vp.Choice(p+".source", 7) {
 	case 1:
 		b.Port = 80
 	case 2:
@@ -320,6 +320,12 @@ func verifBlock(p string) *networking.HTTPMatchRequest {
 		b.SourceLabels = map[string]string{"app": []string{"x", "other"}[vp.Choice(p+".label", 2)]}
 	case 4:
 		b.Gateways = []string{[]string{constants.IstioMeshGateway, "some-gateway"}[vp.Choice(p+".gw", 2)]}
+	case 5:
+		b.SourceNamespace = []string{"ns", "other"}[vp.Choice(p+".srcns", 2)]
+	case 6:
+		// labels AND namespace: both must hold
+		b.SourceLabels = map[string]string{"app": []string{"x", "other"}[vp.Choice(p+".label", 2)]}
+		b.SourceNamespace = []string{"ns", "other"}[vp.Choice(p+".srcns", 2)]
 	}
 	return b
 }
@@ -336,11 +342,13 @@ func verifSmallBlock(p string) *networking.HTTPMatchRequest {
 		}
 		b.Uri = u
 	}
-	switch vp.Choice(p+".source", 3) {
+	switch vp.Choice(p+".source", 4) {
 	case 1:
 		b.Port = 8080
 	case 2:
 		b.SourceLabels = map[string]string{"app": "other"}
+	case 3:
+		b.SourceLabels, b.SourceNamespace = map[string]string{"app": "x"}, "other" // labels match, namespace does not
 	}
 	return b
 }
